@@ -9,7 +9,7 @@
    sectioned one could not be told from a member of that section when the file is read back),
    then the remaining entries in array order with a "[section]" header whenever the section
    changes.                                                                                  *)
-EXTENDS Grammar
+EXTENDS Grammar, TLC
 
 WEnt(g, k, v, hasv, quoted, cb, ca) == [g |-> g, k |-> k, v |-> v, hasv |-> hasv, quoted |-> quoted, cb |-> cb, ca |-> ca]
 NoGrp == <<>>
@@ -61,8 +61,9 @@ Unambiguous(o, d, c) == \A i \in 1..Len(o.ents) :
                           LET e == o.ents[i] IN KeyTextOk(e.k, d, c) /\ SecTextOk(e.g, c) /\ ValueOk(e, d, c) /\ CommentOk(e, c)
 
 \* ---------- the observable that must survive write + read ----------
-RtSections(ents) == LET gs == [i \in 1..Len(ents) |-> ents[i].g] IN
-                    SelectSeq(Dedup0(gs), LAMBDA g : g # NoGrp)
+\* key-bearing sections in CANONICAL (byte-wise) order: the property promises the same sections, not their order
+\* (a header that first appears without keys and gets keys later changes the listing order, C07 is silent on that)
+RtSections(ents) == SortSeq(SelectSeq(Dedup0([i \in 1..Len(ents) |-> ents[i].g]), LAMBDA g : g # NoGrp), ByteLess)
 RtKeys(ents, g)  == LET es == SelectSeq(ents, LAMBDA e : e.g = g) IN [i \in 1..Len(es) |-> es[i].k]
 RtFirst(ents, g, k) == ents[MinOf({i \in 1..Len(ents) : ents[i].g = g /\ ents[i].k = k})]
 RtEnt(e) == [g |-> e.g, k |-> e.k, v |-> IF e.hasv THEN e.v ELSE <<>>,
